@@ -2377,6 +2377,17 @@ impl<'i, R: XmlRead<'i>, E: EntityResolver> XmlReader<'i, R, E> {
             Ok(PayloadEvent::End(ref e)) if e.name() == name => {
                 let _ = self.next_impl();
             }
+            // We pre-read the start of a child element. Skip that child first (that also
+            // ends its namespace scope in the reader), then the rest of the required element
+            Ok(PayloadEvent::Start(ref e)) => {
+                let result1 = self.reader.read_to_end(e.name());
+                let result2 = self.reader.read_to_end(name);
+
+                // In case of error `next_impl` returns `Eof`
+                let _ = self.next_impl();
+                result1?;
+                result2?;
+            }
             Ok(_) => {
                 let result = self.reader.read_to_end(name);
 
